@@ -452,6 +452,15 @@ pub fn exec_op(cx: &Cx, world: &mut World, op: &Value) {
                 }
             }
         }
+        "oob_insert" => {
+            let s = op["s"].as_u64().unwrap_or(0) as usize;
+            if s >= cx.stores.len() {
+                return;
+            }
+            let c = new_c(cx, s);
+            let panicked = cx.stores[s].oob_insert(world, c);
+            emit(cx, json!({"op":"OobInsert","s":s+1,"c":[c.0,c.1],"panicked":panicked}), Some(&*world));
+        }
         "prealloc" => {
             // n entities created at once; only those at the `keep` positions survive
             let n = op["n"].as_u64().unwrap_or(1) as usize;
